@@ -208,3 +208,9 @@ Proof.
   destruct (g_ss_op x o) as [[x1 r]|]; [|reflexivity].
   rewrite <- IH. destruct (g_ss_run x1 rest) as [[x2 rs]|]; reflexivity.
 Qed.
+
+(* AutoStream built with ColorChoice::Never runs the translated stream *)
+Theorem translated_never_is_model : forall b d ops x,
+  match g_ss_run x ops with Some (x1, rs) => Some (ss_state x1, ss_raw x1, rs) | None => None end
+  = run_ops b (auto_mode CNever d) (ss_state x) (ss_raw x) ops.
+Proof. intros b d. exact (translated_stream_is_model b). Qed.
